@@ -28,6 +28,9 @@ ASSUMPTIONS = ["guaranteed region without corner_safe = voxel centres within (mi
 
 def make_tomo(d):
     t = gen.smooth_noise(d["seed"], d["tshape"], sigma=d["sigma"])
+    if d.get("tdtype") == "float16-big":
+        # half-precision data close to the top of the float16 range (raw counts): sums over a few voxels exceed 65504
+        return (t * 6000.0 + 30000.0).astype(np.float16)
     return t.astype(d.get("tdtype", "float32"))  # the reference interpolates these (rounded) values in float64
 
 
@@ -236,7 +239,7 @@ def cases(draw):
     return {"tshape": tshape, "seed": draw(gen.seeds), "sigma": draw(st.sampled_from([0.6, 1.0, 1.5])),
             "shape": shape, "order": order, "scale": scale, "corner_safe": draw(st.booleans()),
             "mols": mols, "chunks": chunks, "kind": kind, "exact": exact,
-            "tdtype": draw(st.sampled_from(["float32", "float32", "float32", "float64", "float16"]))}
+            "tdtype": draw(st.sampled_from(["float32", "float32", "float32", "float64", "float16", "float16-big"]))}
 
 
 def nontrivial(d):
